@@ -152,6 +152,10 @@ class Gen:
                 cb = [["evexc", self.id()]] + self.block(depth + 1, c_c, budget, 0, 3)
                 if r.chance(K["p_rethrow"]) and (not has_fin or self.f.get("throw_in_catch_fin")):
                     cb.append(["rethrow"])
+                elif (ctx["loop"] and ctx["l_try"] == 0 and not has_fin and not ctx["l_catchfin"] and ctx["l_fin"] == 0
+                      and r.chance(0.35)):
+                    # handle the failed item and move on to the next iteration (the try statement has been left by then)
+                    cb.append(["cont"])
             if has_fin:
                 c_f = dict(ctx)
                 c_f["fin_level"] = ctx["fin_level"] + 1
